@@ -18,7 +18,7 @@ pub fn cli_path() -> String {
 /// wall-clock limit of one CLI run; a run that is still going then is killed and judged as a hang (`code` None and
 /// `hung` set). The longest legitimate runs of the checks take a few seconds.
 pub fn cli_deadline() -> std::time::Duration {
-    std::time::Duration::from_secs(std::env::var("VERIF_CLI_DEADLINE_S").ok().and_then(|s| s.parse().ok()).unwrap_or(150))
+    std::time::Duration::from_secs(std::env::var("VERIF_CLI_DEADLINE_S").ok().and_then(|s| s.parse().ok()).unwrap_or(75))
 }
 
 fn run_cmd(mut c: Command) -> CliOut {
